@@ -183,6 +183,12 @@ def stalemate_prone(rng, n):
             q = rng.choice(near(1, 4))
             if 8 <= q < 56:
                 board[q] = rng.choice("Pp")
+        if rng.random() < 0.4:
+            # a hostile pawn or piece right next to the king (it may be protected: a capture that exists only as a pseudo-legal move)
+            adj = near(1, 1)
+            if adj:
+                q = rng.choice(adj)
+                board[q] = "P" if (8 <= q < 56 and rng.random() < 0.6) else rng.choice("NBR")
         if rng.random() < 0.3:
             board[rng.choice(near(1, 5))] = rng.choice("rbnq")
         f = board_to_fen(board, rng.choice("wb"))
@@ -504,7 +510,7 @@ def check_c11(tier, replay=None):
             a = go_case(cases, f, d, "ab", mode="free", w=3, why="search score on a random light position ...")
             go_case(cases, flip_fen(f), d, "ab", mode="free", flipof=a["id"], w=3, why="... and on its colour-flipped twin")
         # stalemate scores as a draw wherever it occurs in the tree, also exactly at the horizon
-        for f in stalemate_prone(rng, 300 if T else 40):
+        for f in stalemate_prone(rng, 400 if T else 90):
             go_case(cases, f, rng.choice([1, 2]), "plain", w=8, why="bare king at the edge, hostile queen close by: stalemates at the horizon")
         # mate distances for both sides and both colours: candidate forced mates (certificate verified by TLC): the mating side must
         # announce mate k <= N, the side being mated (position after the certified move) mate -k with k <= N - 1
